@@ -566,7 +566,12 @@ class Tr:
     def bind_pat(self, pat, t, ty, env, k):
         if pat[0] == 'pid':
             env2 = env.copy()
-            if re.match(r'^[A-Za-z_][\w\']*$', t) or t.startswith('(s_') or ty.startswith('ser:') or ty.startswith('cmsg:') or ty.startswith('mmsg:') or ty.startswith('pwmsg:') or ty in ('bcast', 'opt:addr', 'addr') or len(t) < 40:
+            # a value read from the state is a SNAPSHOT (let-bound right after `s <- get`), never re-read at its later uses
+            if re.search(r'\bs\b', t) and not isinstance(t, tuple):
+                x = self.coqname(pat[1], env)
+                env2.v[pat[1]] = (x, ty)
+                return 'let %s := %s in %s' % (x, t, k(env2))
+            if re.match(r'^[A-Za-z_][\w\']*$', t) or ty.startswith('ser:') or ty.startswith('cmsg:') or ty.startswith('mmsg:') or ty.startswith('pwmsg:') or ty in ('bcast', 'opt:addr', 'addr') or len(t) < 40:
                 env2.v[pat[1]] = (t, ty)
                 return k(env2)
             x = self.coqname(pat[1], env)
